@@ -427,14 +427,14 @@ Proof.
   unfold all_ws. intros H c Hc. rewrite forallb_forall in H. apply H. assumption.
 Qed.
 
-Lemma lex_block v ind pre rest pos :
+Lemma lex_block v ind isd pre rest pos :
   canon v -> all_ws ind -> all_ws pre -> (forall c, In c v -> SourceCharacter c) -> exists e, forall f,
-  lex_from (S f) (reindent pre (block_string v ind false) ++ rest) pos
+  lex_from (S f) (reindent pre (block_string v ind isd) ++ rest) pos
   = LT (PTok KBlockString v pos e) :: lex_from f rest e.
 Proof.
   intros Hcanon Hind Hpre Hsrc.
-  pose proof (block_print_roundtrip v ind pre rest false Hcanon Hind Hpre) as Hrt.
-  destruct (block_string_shape v ind false) as (X0 & EX & HX0). rewrite EX in *.
+  pose proof (block_print_roundtrip v ind pre rest isd Hcanon Hind Hpre) as Hrt.
+  destruct (block_string_shape v ind isd) as (X0 & EX & HX0). rewrite EX in *.
   rewrite reindent_app in *. change (reindent pre Q3) with Q3 in *.
   set (X := reindent pre X0) in *.
   assert (HX : forall c, In c X -> c = 34 \/ c = 92 \/ c = 10 \/ In c (pre ++ ind) \/ In c v).
@@ -697,7 +697,7 @@ Section ValueRT.
         rewrite reindent_app. discriminate. }
       split; [rewrite <- (reindent_nil (block_string _ _ _)); apply Hne|].
       intros pre Hpre. apply lexok_single; [apply Hne|].
-      intros rest pos Hr. destruct (lex_block s (c_indent cf) pre rest pos Hc Hind Hpre Hsrc) as (e & He).
+      intros rest pos Hr. destruct (lex_block s (c_indent cf) false pre rest pos Hc Hind Hpre Hsrc) as (e & He).
       eexists _, e. split; [|exact He].
       apply (DV_block_string true cst (PTok KBlockString s pos e)). reflexivity.
     - split; [discriminate|]. intros pre _. rewrite (reindent_id pre _ (json_no_lf s)).
